@@ -83,12 +83,19 @@ package gtab
 //@ pred sinvPos(ctx *Context) = forall k int :: 0 <= k && k < len(ctx.stack) ==> ctx.stack[k] != nil && 0 <= ctx.stack[k].EndPos && ctx.stack[k].EndPos <= len(ctx.seq) && forall i int :: 0 <= i && i < len(ctx.stack[k].InputPos) ==> 0 <= ctx.stack[k].InputPos[i] && ctx.stack[k].InputPos[i] < ctx.stack[k].EndPos
 //@ pred sinvScratch(ctx *Context) = forall k int :: 0 <= k && k < len(ctx.stack) ==> isnil(ctx.scratch) || ref(ctx.stack[k].InputPos) != ref(ctx.scratch)
 //@ pred sinvOwn(ctx *Context) = forall k int :: forall j int :: 0 <= k && k < len(ctx.stack) && 0 <= j && j < len(ctx.stack) && j != k ==> isnil(ctx.stack[k].InputPos) || ref(ctx.stack[j].InputPos) != ref(ctx.stack[k].InputPos)
-//@ pred stackinv(ctx *Context) = sinvPos(ctx) && sinvScratch(ctx) && sinvOwn(ctx)
+// no entry is on the stack twice (every push allocates a new entry)
+//@ pred sinvDistinct(ctx *Context) = forall k int :: forall j int :: 0 <= k && k < len(ctx.stack) && 0 <= j && j < len(ctx.stack) && j != k ==> ctx.stack[j] != ctx.stack[k]
+// pending entries nest: an entry pushed later ends no later than the ones below it
+//@ pred sinvNest(ctx *Context) = forall k int :: forall j int :: 0 <= j && j < k && k < len(ctx.stack) ==> ctx.stack[k].EndPos <= ctx.stack[j].EndPos
+//@ pred stackinv(ctx *Context) = sinvPos(ctx) && sinvScratch(ctx) && sinvOwn(ctx) && sinvDistinct(ctx) && sinvNest(ctx)
+// the region [.., b) a lookup is applied to lies inside every pending entry
+//@ pred inside(ctx *Context, b int) = forall k int :: 0 <= k && k < len(ctx.stack) ==> b <= ctx.stack[k].EndPos
 
 // Assumed contract of the Subtable interface (implementations under contract
 // are checked against the same clauses).
 //@ assume func (s Subtable) apply(ctx *Context, a int, b int) (next int)
-//@   requires ctx != nil && 0 <= a && a < b && b <= len(ctx.seq) && stackinv(ctx) && keepOK(ctx) && llOK(ctx)
+//@   requires ctx != nil && 0 <= a && a < b && b <= len(ctx.seq) && stackinv(ctx) && inside(ctx, b) && keepOK(ctx) && llOK(ctx)
+//@   ensures next < 0 ==> inside(ctx, b)
 //@   ensures next >= -1 && next <= len(ctx.seq) && stackinv(ctx) && len(ctx.seq) <= 1099511627776
 //@   ensures next < 0 ==> len(ctx.stack) == old(len(ctx.stack)) && len(ctx.seq) == old(len(ctx.seq))
 //@   modifies ctx.seq, ctx.stack, ctx.scratch, all(nested), allelems(glyph.Info), allelems(int), allelems(*nested), allelems(rune), allelems(SeqLookup)
@@ -99,13 +106,13 @@ package gtab
 //@   modifies nothing
 
 //@ func (ctx *Context) applyAt(ss []Subtable, pos int, b int) (next int)   props: C07 C06
-//@   requires ctx != nil && 0 <= pos && pos < b && b <= len(ctx.seq) && stackinv(ctx) && keepOK(ctx) && llOK(ctx)
+//@   requires ctx != nil && 0 <= pos && pos < b && b <= len(ctx.seq) && stackinv(ctx) && inside(ctx, b) && keepOK(ctx) && llOK(ctx)
 //@   requires forall j int :: 0 <= j && j < len(ss) ==> ss[j] != nil
 //@   ensures next >= -1 && next <= len(ctx.seq) && stackinv(ctx) && len(ctx.seq) <= 1099511627776
 //@   ensures next < 0 ==> len(ctx.stack) == old(len(ctx.stack)) && len(ctx.seq) == old(len(ctx.seq))
 //@   modifies ctx.seq, ctx.stack, ctx.scratch, all(nested), allelems(glyph.Info), allelems(int), allelems(*nested), allelems(rune), allelems(SeqLookup)
 //@   loop 0
-//@     invariant stackinv(ctx) && keepOK(ctx) && llOK(ctx) && len(ctx.stack) == old(len(ctx.stack)) && len(ctx.seq) == old(len(ctx.seq)) && b <= len(ctx.seq) && pos < b && 0 <= pos
+//@     invariant stackinv(ctx) && inside(ctx, b) && keepOK(ctx) && llOK(ctx) && len(ctx.stack) == old(len(ctx.stack)) && len(ctx.seq) == old(len(ctx.seq)) && b <= len(ctx.seq) && pos < b && 0 <= pos
 //@     invariant forall j int :: 0 <= j && j < len(ss) ==> ss[j] != nil
 
 //@ func (ctx *Context) applyAtRecursively(pos int) (next int)   props: C07
@@ -136,7 +143,8 @@ package gtab
 // The coverage index of a covered glyph is a valid index into the substitute
 // array (established by the reader).
 //@ func (l *Gsub1_1) apply(ctx *Context, a int, b int) (next int)   props: C06 C07
-//@   requires l != nil && ctx != nil && 0 <= a && a < b && b <= len(ctx.seq) && stackinv(ctx) && keepOK(ctx) && llOK(ctx)
+//@   requires l != nil && ctx != nil && 0 <= a && a < b && b <= len(ctx.seq) && stackinv(ctx) && inside(ctx, b) && keepOK(ctx) && llOK(ctx)
+//@   ensures next < 0 ==> inside(ctx, b)
 //@   ensures next >= -1 && next <= len(ctx.seq) && stackinv(ctx) && len(ctx.seq) == old(len(ctx.seq)) && len(ctx.stack) == old(len(ctx.stack))
 //@   ensures (next == -1) == !old(has(l.Cov, ctx.seq[a].GID))
 //@   ensures next != -1 ==> next == a + 1 && ctx.seq[a].GID == uint16(old(ctx.seq[a].GID) + l.Delta)
@@ -144,8 +152,9 @@ package gtab
 //@   modifies ctx.seq[*]
 
 //@ func (l *Gsub1_2) apply(ctx *Context, a int, b int) (next int)   props: C06 C07
-//@   requires l != nil && ctx != nil && 0 <= a && a < b && b <= len(ctx.seq) && stackinv(ctx) && keepOK(ctx) && llOK(ctx)
+//@   requires l != nil && ctx != nil && 0 <= a && a < b && b <= len(ctx.seq) && stackinv(ctx) && inside(ctx, b) && keepOK(ctx) && llOK(ctx)
 //@   requires forall g uint16 :: has(l.Cov, g) ==> 0 <= l.Cov[g] && l.Cov[g] < len(l.SubstituteGlyphIDs)
+//@   ensures next < 0 ==> inside(ctx, b)
 //@   ensures next >= -1 && next <= len(ctx.seq) && stackinv(ctx) && len(ctx.seq) == old(len(ctx.seq)) && len(ctx.stack) == old(len(ctx.stack))
 //@   ensures (next == -1) == !old(has(l.Cov, ctx.seq[a].GID))
 //@   ensures next != -1 ==> next == a + 1 && ctx.seq[a].GID == l.SubstituteGlyphIDs[l.Cov[old(ctx.seq[a].GID)]]
@@ -153,8 +162,9 @@ package gtab
 //@   modifies ctx.seq[*]
 
 //@ func (l *Gsub3_1) apply(ctx *Context, a int, b int) (next int)   props: C06 C07
-//@   requires l != nil && ctx != nil && 0 <= a && a < b && b <= len(ctx.seq) && stackinv(ctx) && keepOK(ctx) && llOK(ctx)
+//@   requires l != nil && ctx != nil && 0 <= a && a < b && b <= len(ctx.seq) && stackinv(ctx) && inside(ctx, b) && keepOK(ctx) && llOK(ctx)
 //@   requires forall g uint16 :: has(l.Cov, g) ==> 0 <= l.Cov[g] && l.Cov[g] < len(l.Alternates)
+//@   ensures next < 0 ==> inside(ctx, b)
 //@   ensures next >= -1 && next <= len(ctx.seq) && stackinv(ctx) && len(ctx.seq) == old(len(ctx.seq)) && len(ctx.stack) == old(len(ctx.stack))
 //@   ensures next != -1 ==> next == a + 1 && old(has(l.Cov, ctx.seq[a].GID)) && ctx.seq[a].GID == l.Alternates[l.Cov[old(ctx.seq[a].GID)]][0]
 //@   ensures forall i int :: 0 <= i && i < len(ctx.seq) && (i != a || next == -1) ==> ctx.seq[i].GID == old(ctx.seq[i].GID)
@@ -163,64 +173,140 @@ package gtab
 // fixStackInsert re-bases the pending actions after a glyph was replaced by
 // num glyphs.  Its effect on the stack invariant is ASSUMED here (not verified).
 //@ pred stackinvShort(ctx *Context, d int) = forall k int :: 0 <= k && k < len(ctx.stack) ==> ctx.stack[k] != nil && 0 <= ctx.stack[k].EndPos && ctx.stack[k].EndPos <= len(ctx.seq) - d && forall i int :: 0 <= i && i < len(ctx.stack[k].InputPos) ==> 0 <= ctx.stack[k].InputPos[i] && ctx.stack[k].InputPos[i] < ctx.stack[k].EndPos
-//@ assume func (ctx *Context) fixStackInsert(pos int, num int)
-//@   requires ctx != nil && num >= 1 && 0 <= pos && stackinvShort(ctx, num - 1)
+// entry k of the stack lies inside a sequence of length n
+//@ pred entryIn(ctx *Context, k int, n int) = ctx.stack[k] != nil && 0 <= ctx.stack[k].EndPos && ctx.stack[k].EndPos <= n && forall i int :: 0 <= i && i < len(ctx.stack[k].InputPos) ==> 0 <= ctx.stack[k].InputPos[i] && ctx.stack[k].InputPos[i] < ctx.stack[k].EndPos
+//@ func (ctx *Context) fixStackInsert(pos int, num int)   props: C07 C06
+//@   requires ctx != nil && num >= 1 && 0 <= pos && stackinvShort(ctx, num - 1) && sinvScratch(ctx) && sinvOwn(ctx) && sinvDistinct(ctx) && sinvNest(ctx) && len(ctx.seq) <= 1099511627776
 //@   ensures stackinv(ctx) && len(ctx.stack) == old(len(ctx.stack))
+//@   opt assume_make=1
 //@   modifies all(nested), allelems(int)
+//@   let OWN = sinvScratch(ctx) && sinvOwn(ctx) && sinvDistinct(ctx) && (forall k2 int :: 0 <= k2 && k2 < len(ctx.stack) ==> ctx.stack[k2] != nil && (isnil(ctx.stack[k2].InputPos) || allocated(ctx.stack[k2].InputPos)))
+//@   loop 0
+//@     invariant OWN
+//@     invariant (forall k4 int :: forall j4 int :: 0 <= j4 && j4 < k4 && k4 < len(ctx.stack) ==> old(ctx.stack[k4].EndPos) <= old(ctx.stack[j4].EndPos))
+//@     invariant (forall k5 int :: 0 <= k5 && k5 < iter ==> ctx.stack[k5].EndPos == old(ctx.stack[k5].EndPos) + ite(old(ctx.stack[k5].EndPos) > pos, num - 1, 0)) && (forall k6 int :: iter <= k6 && k6 < len(ctx.stack) ==> ctx.stack[k6].EndPos == old(ctx.stack[k6].EndPos))
+//@     invariant forall k2 int :: 0 <= k2 && k2 < iter ==> entryIn(ctx, k2, len(ctx.seq))
+//@     invariant forall k2 int :: iter <= k2 && k2 < len(ctx.stack) ==> entryIn(ctx, k2, len(ctx.seq) - (num - 1))
+//@   loop 1
+//@     invariant (forall k4 int :: forall j4 int :: 0 <= j4 && j4 < k4 && k4 < len(ctx.stack) ==> old(ctx.stack[k4].EndPos) <= old(ctx.stack[j4].EndPos))
+//@     invariant (forall k5 int :: 0 <= k5 && k5 < outerindex ==> ctx.stack[k5].EndPos == old(ctx.stack[k5].EndPos) + ite(old(ctx.stack[k5].EndPos) > pos, num - 1, 0)) && (forall k6 int :: outerindex <= k6 && k6 < len(ctx.stack) ==> ctx.stack[k6].EndPos == old(ctx.stack[k6].EndPos))
+//@     invariant OWN && 0 <= outerindex && outerindex < len(ctx.stack) && action == ctx.stack[outerindex] && action != nil
+//@     invariant forall k2 int :: 0 <= k2 && k2 < outerindex ==> entryIn(ctx, k2, len(ctx.seq))
+//@     invariant forall k2 int :: outerindex < k2 && k2 < len(ctx.stack) ==> entryIn(ctx, k2, len(ctx.seq) - (num - 1))
+//@     invariant pos < action.EndPos && action.EndPos <= len(ctx.seq) - (num - 1) && -1 <= hasPosAt && hasPosAt < iter && (hasPosAt >= 0 ==> action.InputPos[hasPosAt] == pos)
+//@     invariant forall i2 int :: 0 <= i2 && i2 < iter ==> 0 <= action.InputPos[i2] && action.InputPos[i2] < action.EndPos + num - 1
+//@     invariant forall i2 int :: iter <= i2 && i2 < len(action.InputPos) ==> 0 <= action.InputPos[i2] && action.InputPos[i2] < action.EndPos
+//@   loop 2
+//@     invariant (forall k4 int :: forall j4 int :: 0 <= j4 && j4 < k4 && k4 < len(ctx.stack) ==> old(ctx.stack[k4].EndPos) <= old(ctx.stack[j4].EndPos))
+//@     invariant (forall k5 int :: 0 <= k5 && k5 < outerindex + 1 ==> ctx.stack[k5].EndPos == old(ctx.stack[k5].EndPos) + ite(old(ctx.stack[k5].EndPos) > pos, num - 1, 0)) && (forall k6 int :: outerindex + 1 <= k6 && k6 < len(ctx.stack) ==> ctx.stack[k6].EndPos == old(ctx.stack[k6].EndPos))
+//@     invariant 0 <= outerindex && outerindex < len(ctx.stack) && action == ctx.stack[outerindex]
+//@     invariant forall k2 int :: 0 <= k2 && k2 < outerindex ==> entryIn(ctx, k2, len(ctx.seq))
+//@     invariant forall k2 int :: outerindex < k2 && k2 < len(ctx.stack) ==> entryIn(ctx, k2, len(ctx.seq) - (num - 1))
+//@     invariant OWN && action != nil && 1 <= j && j <= num && 0 <= i && i + num <= len(action.InputPos)
+//@     invariant pos + num <= action.EndPos && action.EndPos <= len(ctx.seq)
+//@     invariant forall i2 int :: 0 <= i2 && i2 < len(action.InputPos) && (i2 < i + j || i2 >= i + num) ==> 0 <= action.InputPos[i2] && action.InputPos[i2] < action.EndPos
+//@     decreases num - j
 
 // Multiple substitution: glyph a is replaced by the k >= 1 glyphs of its
 // sequence, the rest of the text keeps its order.
 //@ func (l *Gsub2_1) apply(ctx *Context, a int, b int) (next int)   props: C06 C07
 //@   opt assume_make=1
-//@   requires l != nil && ctx != nil && 0 <= a && a < b && b <= len(ctx.seq) && stackinv(ctx) && keepOK(ctx) && llOK(ctx)
+//@   requires l != nil && ctx != nil && 0 <= a && a < b && b <= len(ctx.seq) && stackinv(ctx) && inside(ctx, b) && keepOK(ctx) && llOK(ctx)
 //@   requires forall g uint16 :: has(l.Cov, g) ==> 0 <= l.Cov[g] && l.Cov[g] < len(l.Repl)
+//@   ensures next < 0 ==> inside(ctx, b)
 //@   ensures next >= -1 && next <= len(ctx.seq) && stackinv(ctx) && len(ctx.seq) <= 1099511627776
 //@   ensures next < 0 ==> len(ctx.stack) == old(len(ctx.stack)) && len(ctx.seq) == old(len(ctx.seq))
 //@   ensures next >= 0 ==> old(has(l.Cov, ctx.seq[a].GID)) && next == a + len(l.Repl[l.Cov[old(ctx.seq[a].GID)]]) && len(ctx.seq) == old(len(ctx.seq)) + len(l.Repl[l.Cov[old(ctx.seq[a].GID)]]) - 1
 //@   modifies ctx.seq, all(nested), allelems(glyph.Info), allelems(int)
 //@   loop 0
-//@     invariant 1 <= i && i <= k && k == len(repl) && len(seq) == len(ctx.seq) + k - 1 && a + k <= len(seq) && stackinv(ctx) && len(seq) <= 1099511627776
+//@     invariant 1 <= i && i <= k && k == len(repl) && len(seq) == len(ctx.seq) + k - 1 && a + k <= len(seq) && stackinv(ctx) && inside(ctx, b) && len(seq) <= 1099511627776
 //@     decreases k - i
 
-// fixStackMerge: effect on the stack invariant ASSUMED (not verified).
-//@ assume func (ctx *Context) fixStackMerge(pos []int)
-//@   requires ctx != nil && len(pos) >= 1
-//@   ensures stackinv(ctx) && len(ctx.stack) == old(len(ctx.stack))
+// fixStackMerge re-bases the pending actions after the glyphs at pos[1:] were
+// removed (ligature).  Checked: no panic, termination, and every entry ends
+// inside the shortened sequence (defect F30 found here: removed glyphs behind
+// the last input position of a rule were not counted).  The bounds of the
+// re-based input positions and the ownership part of the stack invariant are
+// still ASSUMED (ensures_assumed).
+//@ func (ctx *Context) fixStackMerge(pos []int)   props: C07 C06
+//@   requires ctx != nil && len(pos) >= 1 && pos[0] >= 0 && sinvDistinct(ctx)
+//@   requires forall x int :: 0 <= x && x < len(pos) ==> pos[x] >= pos[0] + x && pos[x] <= pos[len(pos)-1]
+//@   requires pos[len(pos)-1] < len(ctx.seq) + len(pos) - 1
+//@   requires forall k int :: 0 <= k && k < len(ctx.stack) ==> ctx.stack[k] != nil && 0 <= ctx.stack[k].EndPos && ctx.stack[k].EndPos <= len(ctx.seq) + len(pos) - 1 && (ctx.stack[k].EndPos > pos[0] ==> pos[len(pos)-1] < ctx.stack[k].EndPos)
+//@   requires forall k int :: 0 <= k && k < len(ctx.stack) ==> isnil(ctx.stack[k].InputPos) || ref(ctx.stack[k].InputPos) != ref(pos)
+//@   ensures len(ctx.stack) == old(len(ctx.stack))
+//@   ensures forall k int :: 0 <= k && k < len(ctx.stack) ==> ctx.stack[k] != nil && 0 <= ctx.stack[k].EndPos && ctx.stack[k].EndPos <= len(ctx.seq)
+//@   ensures_assumed stackinv(ctx)
+//@   opt assume_make=1
 //@   modifies all(nested), allelems(int)
+//@   let DONE = (forall k2 int :: 0 <= k2 && k2 < len(ctx.stack) ==> ctx.stack[k2] != nil) && (forall x int :: 0 <= x && x < len(pos) ==> pos[x] == old(pos[x])) && pos[0] >= 0 && (forall x int :: 0 <= x && x < len(pos) ==> pos[x] >= pos[0] + x && pos[x] <= pos[len(pos)-1]) && pos[len(pos)-1] < len(ctx.seq) + len(pos) - 1
+//@   loop 0
+//@     invariant sinvDistinct(ctx) && DONE
+//@     invariant (forall k3 int :: 0 <= k3 && k3 < len(ctx.stack) ==> isnil(ctx.stack[k3].InputPos) || ref(ctx.stack[k3].InputPos) != ref(pos))
+//@     invariant forall k2 int :: 0 <= k2 && k2 < iter ==> 0 <= ctx.stack[k2].EndPos && ctx.stack[k2].EndPos <= len(ctx.seq)
+//@     invariant forall k2 int :: iter <= k2 && k2 < len(ctx.stack) ==> 0 <= ctx.stack[k2].EndPos && ctx.stack[k2].EndPos <= len(ctx.seq) + len(pos) - 1 && (ctx.stack[k2].EndPos > pos[0] ==> pos[len(pos)-1] < ctx.stack[k2].EndPos)
+//@   loop 1
+//@     invariant (isnil(in) || ref(in) != ref(pos))
+//@     invariant (forall k3 int :: 0 <= k3 && k3 < len(ctx.stack) ==> isnil(ctx.stack[k3].InputPos) || ref(ctx.stack[k3].InputPos) != ref(pos))
+//@     invariant sinvDistinct(ctx) && DONE && 0 <= outerindex && outerindex < len(ctx.stack) && action == ctx.stack[outerindex]
+//@     invariant forall k2 int :: 0 <= k2 && k2 < outerindex ==> 0 <= ctx.stack[k2].EndPos && ctx.stack[k2].EndPos <= len(ctx.seq)
+//@     invariant forall k2 int :: outerindex <= k2 && k2 < len(ctx.stack) ==> 0 <= ctx.stack[k2].EndPos && ctx.stack[k2].EndPos <= len(ctx.seq) + len(pos) - 1 && (ctx.stack[k2].EndPos > pos[0] ==> pos[len(pos)-1] < ctx.stack[k2].EndPos)
+//@     invariant 0 <= i && i <= len(pos) && 0 <= j && j <= len(in) && delta == ite(i >= 1, i - 1, 0) && action.EndPos > pos[0]
+//@     decreases (len(pos) - i) + (len(in) - j)
+//@   loop 2
+//@     invariant (isnil(in) || ref(in) != ref(pos))
+//@     invariant (forall k3 int :: 0 <= k3 && k3 < len(ctx.stack) ==> isnil(ctx.stack[k3].InputPos) || ref(ctx.stack[k3].InputPos) != ref(pos))
+//@     invariant sinvDistinct(ctx) && DONE && 0 <= outerindex && outerindex < len(ctx.stack) && action == ctx.stack[outerindex]
+//@     invariant forall k2 int :: 0 <= k2 && k2 < outerindex ==> 0 <= ctx.stack[k2].EndPos && ctx.stack[k2].EndPos <= len(ctx.seq)
+//@     invariant forall k2 int :: outerindex <= k2 && k2 < len(ctx.stack) ==> 0 <= ctx.stack[k2].EndPos && ctx.stack[k2].EndPos <= len(ctx.seq) + len(pos) - 1 && (ctx.stack[k2].EndPos > pos[0] ==> pos[len(pos)-1] < ctx.stack[k2].EndPos)
+//@     invariant 0 <= i && i <= len(pos) && 0 <= j && j <= len(in) && delta == ite(i >= 1, i - 1, 0) && action.EndPos > pos[0]
+//@     decreases len(in) - j
+//@   loop 3
+//@     invariant (isnil(in) || ref(in) != ref(pos))
+//@     invariant (forall k3 int :: 0 <= k3 && k3 < len(ctx.stack) ==> isnil(ctx.stack[k3].InputPos) || ref(ctx.stack[k3].InputPos) != ref(pos))
+//@     invariant sinvDistinct(ctx) && DONE && 0 <= outerindex && outerindex < len(ctx.stack) && action == ctx.stack[outerindex]
+//@     invariant forall k2 int :: 0 <= k2 && k2 < outerindex ==> 0 <= ctx.stack[k2].EndPos && ctx.stack[k2].EndPos <= len(ctx.seq)
+//@     invariant forall k2 int :: outerindex <= k2 && k2 < len(ctx.stack) ==> 0 <= ctx.stack[k2].EndPos && ctx.stack[k2].EndPos <= len(ctx.seq) + len(pos) - 1 && (ctx.stack[k2].EndPos > pos[0] ==> pos[len(pos)-1] < ctx.stack[k2].EndPos)
+//@     invariant 0 <= i && i <= len(pos) && delta == ite(i >= 1, i - 1, 0) && action.EndPos > pos[0]
+//@     decreases len(pos) - i
 
 // Ligature substitution: the matched components are at matchPos (ascending,
 // starting at a), the glyphs skipped by the lookup flags at skipPos; together
 // they are exactly the positions a..p-1, and the two lists are separate arrays.
 //@ func (l *Gsub4_1) apply(ctx *Context, a int, b int) (next int)   props: C06 C07
 //@   opt assume_make=1
-//@   requires l != nil && ctx != nil && 0 <= a && a < b && b <= len(ctx.seq) && stackinv(ctx) && keepOK(ctx) && llOK(ctx)
+//@   requires l != nil && ctx != nil && 0 <= a && a < b && b <= len(ctx.seq) && stackinv(ctx) && inside(ctx, b) && keepOK(ctx) && llOK(ctx)
 //@   requires forall g uint16 :: has(l.Cov, g) ==> 0 <= l.Cov[g] && l.Cov[g] < len(l.Repl)
 //@   requires forall k int :: 0 <= k && k < len(ctx.stack) ==> !fresh(ctx.stack[k].InputPos)
+//@   ensures next < 0 ==> inside(ctx, b)
 //@   ensures next >= -1 && next <= len(ctx.seq) && stackinv(ctx) && len(ctx.seq) <= 1099511627776
 //@   ensures next < 0 ==> len(ctx.stack) == old(len(ctx.stack)) && len(ctx.seq) == old(len(ctx.seq))
 //@   ensures next >= 0 ==> next > a
 //@   modifies ctx.seq, ctx.seq[*], all(nested), allelems(glyph.Info), allelems(int), allelems(rune)
 //@   loop 0
 //@     invariant isnil(skipPos) || isnil(matchPos) || ref(skipPos) != ref(matchPos)
-//@     invariant (isnil(matchPos) || fresh(matchPos)) && (isnil(skipPos) || fresh(skipPos)) && (isnil(text) || fresh(text)) && stackinv(ctx) && keepOK(ctx) && len(ctx.seq) == old(len(ctx.seq)) && len(ctx.stack) == old(len(ctx.stack)) && (forall k int :: 0 <= k && k < len(ctx.stack) ==> !fresh(ctx.stack[k].InputPos))
+//@     invariant (isnil(matchPos) || fresh(matchPos)) && (isnil(skipPos) || fresh(skipPos)) && (isnil(text) || fresh(text)) && stackinv(ctx) && inside(ctx, b) && keepOK(ctx) && len(ctx.seq) == old(len(ctx.seq)) && len(ctx.stack) == old(len(ctx.stack)) && (forall k int :: 0 <= k && k < len(ctx.stack) ==> !fresh(ctx.stack[k].InputPos))
 //@     invariant ref(seq) == ref(ctx.seq) && off(seq) == off(ctx.seq) && len(seq) == len(ctx.seq) && ref(seq) == old(ref(ctx.seq))
 //@   loop 1
-//@     invariant (isnil(matchPos) || fresh(matchPos)) && (isnil(skipPos) || fresh(skipPos)) && (isnil(text) || fresh(text)) && stackinv(ctx) && keepOK(ctx) && len(ctx.seq) == old(len(ctx.seq)) && len(ctx.stack) == old(len(ctx.stack)) && (forall k int :: 0 <= k && k < len(ctx.stack) ==> !fresh(ctx.stack[k].InputPos))
+//@     invariant (isnil(matchPos) || fresh(matchPos)) && (isnil(skipPos) || fresh(skipPos)) && (isnil(text) || fresh(text)) && stackinv(ctx) && inside(ctx, b) && keepOK(ctx) && len(ctx.seq) == old(len(ctx.seq)) && len(ctx.stack) == old(len(ctx.stack)) && (forall k int :: 0 <= k && k < len(ctx.stack) ==> !fresh(ctx.stack[k].InputPos))
 //@     invariant ref(seq) == ref(ctx.seq) && off(seq) == off(ctx.seq) && len(seq) == len(ctx.seq) && ref(seq) == old(ref(ctx.seq))
 //@     invariant isnil(skipPos) || ref(skipPos) != ref(matchPos)
 //@     invariant a < p && p <= b && len(matchPos) == iter + 1 && len(matchPos) + len(skipPos) == p - a && matchPos[0] == a
+//@     invariant (forall x int :: 0 <= x && x < len(matchPos) ==> matchPos[x] >= a + x && matchPos[x] < p && matchPos[x] <= matchPos[len(matchPos)-1])
 //@     invariant forall k int :: 0 <= k && k < len(skipPos) ==> a < skipPos[k] && skipPos[k] < p && skipPos[k] >= a + 1 + k
 //@   loop 2
-//@     invariant (isnil(matchPos) || fresh(matchPos)) && (isnil(skipPos) || fresh(skipPos)) && (isnil(text) || fresh(text)) && stackinv(ctx) && keepOK(ctx) && len(ctx.seq) == old(len(ctx.seq)) && len(ctx.stack) == old(len(ctx.stack)) && (forall k int :: 0 <= k && k < len(ctx.stack) ==> !fresh(ctx.stack[k].InputPos))
+//@     invariant (isnil(matchPos) || fresh(matchPos)) && (isnil(skipPos) || fresh(skipPos)) && (isnil(text) || fresh(text)) && stackinv(ctx) && inside(ctx, b) && keepOK(ctx) && len(ctx.seq) == old(len(ctx.seq)) && len(ctx.stack) == old(len(ctx.stack)) && (forall k int :: 0 <= k && k < len(ctx.stack) ==> !fresh(ctx.stack[k].InputPos))
 //@     invariant ref(seq) == ref(ctx.seq) && off(seq) == off(ctx.seq) && len(seq) == len(ctx.seq) && ref(seq) == old(ref(ctx.seq))
 //@     invariant isnil(skipPos) || ref(skipPos) != ref(matchPos)
 //@     invariant a < p && p <= b && len(matchPos) == rangeindex + 1 && len(matchPos) + len(skipPos) == p - a && matchPos[0] == a
+//@     invariant (forall x int :: 0 <= x && x < len(matchPos) ==> matchPos[x] >= a + x && matchPos[x] < p && matchPos[x] <= matchPos[len(matchPos)-1])
 //@     invariant forall k int :: 0 <= k && k < len(skipPos) ==> a < skipPos[k] && skipPos[k] < p && skipPos[k] >= a + 1 + k
 //@     decreases b - p
 //@   loop 3
-//@     invariant (isnil(matchPos) || fresh(matchPos)) && len(matchPos) >= 1 && stackinv(ctx) && len(ctx.seq) == old(len(ctx.seq)) && len(ctx.stack) == old(len(ctx.stack)) && (forall k int :: 0 <= k && k < len(ctx.stack) ==> !fresh(ctx.stack[k].InputPos))
+//@     invariant (isnil(matchPos) || fresh(matchPos)) && len(matchPos) >= 1 && stackinv(ctx) && inside(ctx, b) && len(ctx.seq) == old(len(ctx.seq)) && len(ctx.stack) == old(len(ctx.stack)) && (forall k int :: 0 <= k && k < len(ctx.stack) ==> !fresh(ctx.stack[k].InputPos))
 //@     invariant ref(seq) == ref(ctx.seq) && off(seq) == off(ctx.seq) && len(seq) == len(ctx.seq) && ref(seq) == old(ref(ctx.seq))
-//@     invariant a < p && p <= b && len(matchPos) == len(lig.In) + 1 && len(matchPos) + len(skipPos) == p - a
+//@     invariant a < p && p <= b && len(matchPos) == len(lig.In) + 1 && len(matchPos) + len(skipPos) == p - a && matchPos[0] == a
+//@     invariant (forall x int :: 0 <= x && x < len(matchPos) ==> matchPos[x] >= a + x && matchPos[x] < p && matchPos[x] <= matchPos[len(matchPos)-1])
 //@     invariant forall k int :: 0 <= k && k < len(skipPos) ==> a < skipPos[k] && skipPos[k] < p && skipPos[k] >= a + 1 + k
 //@     invariant (isnil(skipPos) || fresh(skipPos))
 //@     invariant forall k int :: 0 <= k && k < iter ==> seq[a+1+k] == pre(seq[skipPos[k]])
@@ -503,7 +589,8 @@ package gtab
 // the record selected by the coverage index), every other glyph and the
 // length of the sequence are untouched, the next position is a+1.
 //@ func (l *Gpos1_1) apply(ctx *Context, a int, b int) (next int)   props: C06 C07
-//@   requires l != nil && ctx != nil && 0 <= a && a < b && b <= len(ctx.seq) && stackinv(ctx) && keepOK(ctx) && llOK(ctx)
+//@   requires l != nil && ctx != nil && 0 <= a && a < b && b <= len(ctx.seq) && stackinv(ctx) && inside(ctx, b) && keepOK(ctx) && llOK(ctx)
+//@   ensures next < 0 ==> inside(ctx, b)
 //@   ensures next >= -1 && next <= len(ctx.seq) && stackinv(ctx) && len(ctx.seq) == old(len(ctx.seq)) && len(ctx.stack) == old(len(ctx.stack))
 //@   ensures (next == -1) == !has(l.Cov, old(ctx.seq[a].GID))
 //@   ensures next != -1 ==> next == a + 1
@@ -514,8 +601,9 @@ package gtab
 //@   modifies ctx.seq[*]
 
 //@ func (l *Gpos1_2) apply(ctx *Context, a int, b int) (next int)   props: C06 C07
-//@   requires l != nil && ctx != nil && 0 <= a && a < b && b <= len(ctx.seq) && stackinv(ctx) && keepOK(ctx) && llOK(ctx)
+//@   requires l != nil && ctx != nil && 0 <= a && a < b && b <= len(ctx.seq) && stackinv(ctx) && inside(ctx, b) && keepOK(ctx) && llOK(ctx)
 //@   requires forall g uint16 :: has(l.Cov, g) ==> 0 <= l.Cov[g] && l.Cov[g] < len(l.Adjust)
+//@   ensures next < 0 ==> inside(ctx, b)
 //@   ensures next >= -1 && next <= len(ctx.seq) && stackinv(ctx) && len(ctx.seq) == old(len(ctx.seq)) && len(ctx.stack) == old(len(ctx.stack))
 //@   ensures (next == -1) == !has(l.Cov, old(ctx.seq[a].GID))
 //@   ensures next != -1 ==> next == a + 1
@@ -552,8 +640,9 @@ package gtab
 // glyph the lookup flags keep; the pair (left, right) selects the adjustment;
 // without a second value record the next pair starts at the second glyph.
 //@ func (l Gpos2_1) apply(ctx *Context, a int, b int) (next int)   props: C06 C07
-//@   requires ctx != nil && 0 <= a && a < b && b <= len(ctx.seq) && stackinv(ctx) && keepOK(ctx) && llOK(ctx)
+//@   requires ctx != nil && 0 <= a && a < b && b <= len(ctx.seq) && stackinv(ctx) && inside(ctx, b) && keepOK(ctx) && llOK(ctx)
 //@   requires forall x uint16 :: forall y uint16 :: has(l, glyph.Pair{x, y}) ==> l[glyph.Pair{x, y}] != nil
+//@   ensures next < 0 ==> inside(ctx, b)
 //@   ensures next >= -1 && next <= len(ctx.seq) && stackinv(ctx) && len(ctx.seq) == old(len(ctx.seq)) && len(ctx.stack) == old(len(ctx.stack))
 //@   ensures next == -1 || (a < next && next <= b)
 //@   ensures forall i int :: 0 <= i && i < len(ctx.seq) ==> ctx.seq[i].GID == old(ctx.seq[i].GID)
@@ -601,9 +690,10 @@ package gtab
 // advsum: the total advance of the glyphs lo..hi-1 (unbounded integer)
 //@ spec advsum(seq []glyph.Info, lo int, hi int) int = ite(hi <= lo, 0, advsum(seq, lo, hi - 1) + seq[hi-1].Advance)
 //@ func (l *Gpos4_1) apply(ctx *Context, a int, b int) (next int)   props: C06 C07
-//@   requires l != nil && ctx != nil && 0 <= a && a < b && b <= len(ctx.seq) && stackinv(ctx) && keepOK(ctx) && llOK(ctx)
+//@   requires l != nil && ctx != nil && 0 <= a && a < b && b <= len(ctx.seq) && stackinv(ctx) && inside(ctx, b) && keepOK(ctx) && llOK(ctx)
 //@   requires forall g uint16 :: has(l.MarkCov, g) ==> 0 <= l.MarkCov[g] && l.MarkCov[g] < len(l.MarkArray)
 //@   requires forall g uint16 :: has(l.BaseCov, g) ==> 0 <= l.BaseCov[g] && l.BaseCov[g] < len(l.BaseArray)
+//@   ensures next < 0 ==> inside(ctx, b)
 //@   ensures (next == -1 || next == a + 1) && stackinv(ctx) && len(ctx.seq) == old(len(ctx.seq)) && len(ctx.stack) == old(len(ctx.stack))
 //@   ensures !has(l.MarkCov, old(ctx.seq[a].GID)) ==> next == -1
 //@   ensures forall i int :: 0 <= i && i < len(ctx.seq) ==> ctx.seq[i].GID == old(ctx.seq[i].GID) && ctx.seq[i].Advance == old(ctx.seq[i].Advance)
@@ -624,9 +714,10 @@ package gtab
 // in the role of the base; the first mark's placement offsets are SET (not
 // adjusted) from the two anchors and the advances in between.
 //@ func (l *Gpos6_1) apply(ctx *Context, a int, b int) (next int)   props: C06 C07
-//@   requires l != nil && ctx != nil && 0 <= a && a < b && b <= len(ctx.seq) && stackinv(ctx) && keepOK(ctx) && llOK(ctx)
+//@   requires l != nil && ctx != nil && 0 <= a && a < b && b <= len(ctx.seq) && stackinv(ctx) && inside(ctx, b) && keepOK(ctx) && llOK(ctx)
 //@   requires forall g uint16 :: has(l.Mark1Cov, g) ==> 0 <= l.Mark1Cov[g] && l.Mark1Cov[g] < len(l.Mark1Array)
 //@   requires forall g uint16 :: has(l.Mark2Cov, g) ==> 0 <= l.Mark2Cov[g] && l.Mark2Cov[g] < len(l.Mark2Array)
+//@   ensures next < 0 ==> inside(ctx, b)
 //@   ensures (next == -1 || next == a + 1) && stackinv(ctx) && len(ctx.seq) == old(len(ctx.seq)) && len(ctx.stack) == old(len(ctx.stack))
 //@   ensures !has(l.Mark1Cov, old(ctx.seq[a].GID)) ==> next == -1
 //@   ensures forall i int :: 0 <= i && i < len(ctx.seq) ==> ctx.seq[i].GID == old(ctx.seq[i].GID) && ctx.seq[i].Advance == old(ctx.seq[i].Advance)
@@ -644,8 +735,9 @@ package gtab
 
 // Cursive attachment (GPOS lookup type 3): only the covered glyph changes.
 //@ func (l *Gpos3_1) apply(ctx *Context, a int, b int) (next int)   props: C06 C07
-//@   requires l != nil && ctx != nil && 0 <= a && a < b && b <= len(ctx.seq) && stackinv(ctx) && keepOK(ctx) && llOK(ctx)
+//@   requires l != nil && ctx != nil && 0 <= a && a < b && b <= len(ctx.seq) && stackinv(ctx) && inside(ctx, b) && keepOK(ctx) && llOK(ctx)
 //@   requires forall g uint16 :: has(l.Cov, g) ==> 0 <= l.Cov[g] && l.Cov[g] < len(l.Records)
+//@   ensures next < 0 ==> inside(ctx, b)
 //@   ensures (next == -1 || next == a + 1) && stackinv(ctx) && len(ctx.seq) == old(len(ctx.seq)) && len(ctx.stack) == old(len(ctx.stack))
 //@   ensures (next == -1) == !has(l.Cov, old(ctx.seq[a].GID))
 //@   ensures forall i int :: 0 <= i && i < len(ctx.seq) ==> ctx.seq[i].GID == old(ctx.seq[i].GID) && ctx.seq[i].XOffset == old(ctx.seq[i].XOffset)
@@ -704,8 +796,9 @@ package gtab
 // scratch slice no longer shares its array (a later match must not overwrite
 // the positions of this one).
 //@ func (l *SeqContext2) apply(ctx *Context, a int, b int) (next int)   props: C07 C06
-//@   requires l != nil && ctx != nil && 0 <= a && a < b && b <= len(ctx.seq) && stackinv(ctx) && keepOK(ctx) && llOK(ctx)
+//@   requires l != nil && ctx != nil && 0 <= a && a < b && b <= len(ctx.seq) && stackinv(ctx) && inside(ctx, b) && keepOK(ctx) && llOK(ctx)
 //@   requires forall i int :: 0 <= i && i < len(l.Rules) ==> forall j int :: 0 <= j && j < len(l.Rules[i]) ==> l.Rules[i][j] != nil
+//@   ensures next < 0 ==> inside(ctx, b)
 //@   ensures next >= -1 && next <= len(ctx.seq) && stackinv(ctx) && len(ctx.seq) == old(len(ctx.seq))
 //@   ensures next < 0 ==> len(ctx.stack) == old(len(ctx.stack))
 //@   ensures next >= 0 ==> a < next && next <= b && len(ctx.stack) == old(len(ctx.stack)) + 1
@@ -718,11 +811,11 @@ package gtab
 //@   opt assume_make=1
 //@   modifies ctx.scratch, ctx.stack, ctx.stack[*], ctx.scratch[*], all(nested), allelems(int), allelems(*nested)
 //@   loop 0
-//@     invariant stackinv(ctx) && len(ctx.stack) == old(len(ctx.stack)) && len(ctx.seq) == old(len(ctx.seq)) && ref(seq) == ref(ctx.seq) && off(seq) == off(ctx.seq) && len(seq) == len(ctx.seq) && b <= len(seq) && ctx.scratch == old(ctx.scratch) && keep == ctx.keep
+//@     invariant stackinv(ctx) && inside(ctx, b) && len(ctx.stack) == old(len(ctx.stack)) && len(ctx.seq) == old(len(ctx.seq)) && ref(seq) == ref(ctx.seq) && off(seq) == off(ctx.seq) && len(seq) == len(ctx.seq) && b <= len(seq) && ctx.scratch == old(ctx.scratch) && keep == ctx.keep
 //@     invariant isnil(matchPos) || ref(matchPos) == ref(ctx.scratch) || fresh(matchPos)
 //@     invariant forall k int :: 0 <= k && k < len(ctx.stack) ==> !fresh(ctx.stack[k].InputPos)
 //@   loop 1
-//@     invariant stackinv(ctx) && len(ctx.stack) == old(len(ctx.stack)) && len(ctx.seq) == old(len(ctx.seq)) && ref(seq) == ref(ctx.seq) && off(seq) == off(ctx.seq) && len(seq) == len(ctx.seq) && b <= len(seq) && ctx.scratch == old(ctx.scratch) && keep == ctx.keep
+//@     invariant stackinv(ctx) && inside(ctx, b) && len(ctx.stack) == old(len(ctx.stack)) && len(ctx.seq) == old(len(ctx.seq)) && ref(seq) == ref(ctx.seq) && off(seq) == off(ctx.seq) && len(seq) == len(ctx.seq) && b <= len(seq) && ctx.scratch == old(ctx.scratch) && keep == ctx.keep
 //@     invariant ref(matchPos) == ref(ctx.scratch) || fresh(matchPos)
 //@     invariant forall k int :: 0 <= k && k < len(ctx.stack) ==> !fresh(ctx.stack[k].InputPos)
 //@     invariant a <= p && p < b && glyphsNeeded >= 0 && glyphsNeeded == len(rule.Input) - iter && len(matchPos) == iter + 1 && matchPos[0] == a && rule != nil
@@ -741,15 +834,16 @@ package gtab
 //@     invariant (forall k2 int :: 0 <= k2 && k2 + 1 < len(matchPos) ==> matchPos[k2] < matchPos[k2+1]) && matchPos[0] == a && len(matchPos) == len(rule.Input) + 1
 //@     invariant (forall i2 int :: 1 <= i2 && i2 < len(matchPos) ==> l.Input[seq[matchPos[i2]].GID] == rule.Input[i2-1])
 //@     invariant (forall i3 int :: 1 <= i3 && i3 < len(matchPos) ==> keptG(keep, seq[matchPos[i3]].GID)) && (forall i4 int :: forall q int :: 0 <= i4 && i4 + 1 < len(matchPos) && matchPos[i4] < q && q < matchPos[i4+1] ==> !keptG(keep, seq[q].GID)) && forall q int :: matchPos[len(matchPos)-1] < q && q < p ==> !keptG(keep, seq[q].GID)
-//@     invariant len(matchPos) >= 1 && stackinv(ctx) && len(ctx.stack) == old(len(ctx.stack)) && (ref(matchPos) == ref(ctx.scratch) || fresh(matchPos)) && ctx.scratch == old(ctx.scratch) && rule != nil
+//@     invariant len(matchPos) >= 1 && stackinv(ctx) && inside(ctx, b) && len(ctx.stack) == old(len(ctx.stack)) && (ref(matchPos) == ref(ctx.scratch) || fresh(matchPos)) && ctx.scratch == old(ctx.scratch) && rule != nil
 //@     invariant forall k int :: 0 <= k && k < len(ctx.stack) ==> !fresh(ctx.stack[k].InputPos)
 //@     decreases b - p
 
 // Same structure as SeqContext2.apply, the rule set is chosen by coverage index.
 //@ func (l *SeqContext1) apply(ctx *Context, a int, b int) (next int)   props: C07 C06
-//@   requires l != nil && ctx != nil && 0 <= a && a < b && b <= len(ctx.seq) && stackinv(ctx) && keepOK(ctx) && llOK(ctx)
+//@   requires l != nil && ctx != nil && 0 <= a && a < b && b <= len(ctx.seq) && stackinv(ctx) && inside(ctx, b) && keepOK(ctx) && llOK(ctx)
 //@   requires forall g uint16 :: has(l.Cov, g) ==> 0 <= l.Cov[g] && l.Cov[g] < len(l.Rules)
 //@   requires forall i int :: 0 <= i && i < len(l.Rules) ==> forall j int :: 0 <= j && j < len(l.Rules[i]) ==> l.Rules[i][j] != nil
+//@   ensures next < 0 ==> inside(ctx, b)
 //@   ensures next >= -1 && next <= len(ctx.seq) && stackinv(ctx) && len(ctx.seq) == old(len(ctx.seq))
 //@   ensures next < 0 ==> len(ctx.stack) == old(len(ctx.stack))
 //@   ensures next >= 0 ==> a < next && next <= b && len(ctx.stack) == old(len(ctx.stack)) + 1
@@ -762,11 +856,11 @@ package gtab
 //@   opt assume_make=1
 //@   modifies ctx.scratch, ctx.stack, ctx.stack[*], ctx.scratch[*], all(nested), allelems(int), allelems(*nested)
 //@   loop 0
-//@     invariant stackinv(ctx) && len(ctx.stack) == old(len(ctx.stack)) && len(ctx.seq) == old(len(ctx.seq)) && ref(seq) == ref(ctx.seq) && off(seq) == off(ctx.seq) && len(seq) == len(ctx.seq) && b <= len(seq) && ctx.scratch == old(ctx.scratch) && keep == ctx.keep
+//@     invariant stackinv(ctx) && inside(ctx, b) && len(ctx.stack) == old(len(ctx.stack)) && len(ctx.seq) == old(len(ctx.seq)) && ref(seq) == ref(ctx.seq) && off(seq) == off(ctx.seq) && len(seq) == len(ctx.seq) && b <= len(seq) && ctx.scratch == old(ctx.scratch) && keep == ctx.keep
 //@     invariant isnil(matchPos) || ref(matchPos) == ref(ctx.scratch) || fresh(matchPos)
 //@     invariant forall k int :: 0 <= k && k < len(ctx.stack) ==> !fresh(ctx.stack[k].InputPos)
 //@   loop 1
-//@     invariant stackinv(ctx) && len(ctx.stack) == old(len(ctx.stack)) && len(ctx.seq) == old(len(ctx.seq)) && ref(seq) == ref(ctx.seq) && off(seq) == off(ctx.seq) && len(seq) == len(ctx.seq) && b <= len(seq) && ctx.scratch == old(ctx.scratch) && keep == ctx.keep
+//@     invariant stackinv(ctx) && inside(ctx, b) && len(ctx.stack) == old(len(ctx.stack)) && len(ctx.seq) == old(len(ctx.seq)) && ref(seq) == ref(ctx.seq) && off(seq) == off(ctx.seq) && len(seq) == len(ctx.seq) && b <= len(seq) && ctx.scratch == old(ctx.scratch) && keep == ctx.keep
 //@     invariant ref(matchPos) == ref(ctx.scratch) || fresh(matchPos)
 //@     invariant forall k int :: 0 <= k && k < len(ctx.stack) ==> !fresh(ctx.stack[k].InputPos)
 //@     invariant a <= p && p < b && glyphsNeeded >= 0 && glyphsNeeded == len(rule.Input) - iter && len(matchPos) == iter + 1 && matchPos[0] == a && rule != nil
@@ -785,14 +879,15 @@ package gtab
 //@     invariant (forall k2 int :: 0 <= k2 && k2 + 1 < len(matchPos) ==> matchPos[k2] < matchPos[k2+1]) && matchPos[0] == a && len(matchPos) == len(rule.Input) + 1
 //@     invariant (forall i2 int :: 1 <= i2 && i2 < len(matchPos) ==> seq[matchPos[i2]].GID == rule.Input[i2-1])
 //@     invariant (forall i3 int :: 1 <= i3 && i3 < len(matchPos) ==> keptG(keep, seq[matchPos[i3]].GID)) && (forall i4 int :: forall q int :: 0 <= i4 && i4 + 1 < len(matchPos) && matchPos[i4] < q && q < matchPos[i4+1] ==> !keptG(keep, seq[q].GID)) && forall q int :: matchPos[len(matchPos)-1] < q && q < p ==> !keptG(keep, seq[q].GID)
-//@     invariant len(matchPos) >= 1 && stackinv(ctx) && len(ctx.stack) == old(len(ctx.stack)) && (ref(matchPos) == ref(ctx.scratch) || fresh(matchPos)) && ctx.scratch == old(ctx.scratch) && rule != nil
+//@     invariant len(matchPos) >= 1 && stackinv(ctx) && inside(ctx, b) && len(ctx.stack) == old(len(ctx.stack)) && (ref(matchPos) == ref(ctx.scratch) || fresh(matchPos)) && ctx.scratch == old(ctx.scratch) && rule != nil
 //@     invariant forall k int :: 0 <= k && k < len(ctx.stack) ==> !fresh(ctx.stack[k].InputPos)
 //@     decreases b - p
 
 // Coverage-based context: one rule, one coverage set per input position.
 //@ func (l *SeqContext3) apply(ctx *Context, a int, b int) (next int)   props: C07 C06
-//@   requires l != nil && ctx != nil && 0 <= a && a < b && b <= len(ctx.seq) && stackinv(ctx) && keepOK(ctx) && llOK(ctx)
+//@   requires l != nil && ctx != nil && 0 <= a && a < b && b <= len(ctx.seq) && stackinv(ctx) && inside(ctx, b) && keepOK(ctx) && llOK(ctx)
 //@   requires len(l.Input) >= 1
+//@   ensures next < 0 ==> inside(ctx, b)
 //@   ensures next >= -1 && next <= len(ctx.seq) && stackinv(ctx) && len(ctx.seq) == old(len(ctx.seq))
 //@   ensures next < 0 ==> len(ctx.stack) == old(len(ctx.stack))
 //@   ensures next >= 0 ==> a < next && next <= b && len(ctx.stack) == old(len(ctx.stack)) + 1
@@ -804,7 +899,7 @@ package gtab
 //@   opt assume_make=1
 //@   modifies ctx.scratch, ctx.stack, ctx.stack[*], ctx.scratch[*], all(nested), allelems(int), allelems(*nested)
 //@   loop 0
-//@     invariant stackinv(ctx) && len(ctx.stack) == old(len(ctx.stack)) && len(ctx.seq) == old(len(ctx.seq)) && ref(seq) == ref(ctx.seq) && off(seq) == off(ctx.seq) && len(seq) == len(ctx.seq) && b <= len(seq) && ctx.scratch == old(ctx.scratch) && keep == ctx.keep
+//@     invariant stackinv(ctx) && inside(ctx, b) && len(ctx.stack) == old(len(ctx.stack)) && len(ctx.seq) == old(len(ctx.seq)) && ref(seq) == ref(ctx.seq) && off(seq) == off(ctx.seq) && len(seq) == len(ctx.seq) && b <= len(seq) && ctx.scratch == old(ctx.scratch) && keep == ctx.keep
 //@     invariant ref(matchPos) == ref(ctx.scratch) || fresh(matchPos)
 //@     invariant forall k int :: 0 <= k && k < len(ctx.stack) ==> !fresh(ctx.stack[k].InputPos)
 //@     invariant a <= p && p < b && glyphsNeeded >= 0 && glyphsNeeded == len(l.Input) - 1 - iter && len(matchPos) == iter + 1 && matchPos[0] == a
@@ -823,16 +918,17 @@ package gtab
 //@     invariant (forall k2 int :: 0 <= k2 && k2 + 1 < len(matchPos) ==> matchPos[k2] < matchPos[k2+1]) && matchPos[0] == a && len(matchPos) == len(l.Input)
 //@     invariant (forall i2 int :: 0 <= i2 && i2 < len(matchPos) ==> l.Input[i2][seq[matchPos[i2]].GID])
 //@     invariant (forall i3 int :: 1 <= i3 && i3 < len(matchPos) ==> keptG(keep, seq[matchPos[i3]].GID)) && (forall i4 int :: forall q int :: 0 <= i4 && i4 + 1 < len(matchPos) && matchPos[i4] < q && q < matchPos[i4+1] ==> !keptG(keep, seq[q].GID)) && forall q int :: matchPos[len(matchPos)-1] < q && q < p ==> !keptG(keep, seq[q].GID)
-//@     invariant len(matchPos) >= 1 && stackinv(ctx) && len(ctx.stack) == old(len(ctx.stack)) && (ref(matchPos) == ref(ctx.scratch) || fresh(matchPos)) && ctx.scratch == old(ctx.scratch)
+//@     invariant len(matchPos) >= 1 && stackinv(ctx) && inside(ctx, b) && len(ctx.stack) == old(len(ctx.stack)) && (ref(matchPos) == ref(ctx.scratch) || fresh(matchPos)) && ctx.scratch == old(ctx.scratch)
 //@     invariant forall k int :: 0 <= k && k < len(ctx.stack) ==> !fresh(ctx.stack[k].InputPos)
 //@     decreases b - p
 
 // Chained context, format 1: backtrack and lookahead are only inspected, the
 // new stack entry owns the match positions of the input sequence.
 //@ func (l *ChainedSeqContext1) apply(ctx *Context, a int, b int) (next int)   props: C07 C06
-//@   requires l != nil && ctx != nil && 0 <= a && a < b && b <= len(ctx.seq) && stackinv(ctx) && keepOK(ctx) && llOK(ctx)
+//@   requires l != nil && ctx != nil && 0 <= a && a < b && b <= len(ctx.seq) && stackinv(ctx) && inside(ctx, b) && keepOK(ctx) && llOK(ctx)
 //@   requires forall g uint16 :: has(l.Cov, g) ==> 0 <= l.Cov[g] && l.Cov[g] < len(l.Rules)
 //@   requires forall i int :: 0 <= i && i < len(l.Rules) ==> forall j int :: 0 <= j && j < len(l.Rules[i]) ==> l.Rules[i][j] != nil
+//@   ensures next < 0 ==> inside(ctx, b)
 //@   ensures next >= -1 && next <= len(ctx.seq) && stackinv(ctx) && len(ctx.seq) == old(len(ctx.seq))
 //@   ensures next < 0 ==> len(ctx.stack) == old(len(ctx.stack))
 //@   ensures next >= 0 ==> a < next && next <= b && len(ctx.stack) == old(len(ctx.stack)) + 1
@@ -844,7 +940,7 @@ package gtab
 //@   return_assert next >= 0 ==> (next < b ==> keptG(keep, seq[next].GID)) && forall q int :: matchPos[len(matchPos)-1] < q && q < next ==> !keptG(keep, seq[q].GID)
 //@   opt assume_make=1
 //@   modifies ctx.scratch, ctx.stack, ctx.stack[*], ctx.scratch[*], all(nested), allelems(int), allelems(*nested)
-//@   let C = stackinv(ctx) && len(ctx.stack) == old(len(ctx.stack)) && len(ctx.seq) == old(len(ctx.seq)) && ref(seq) == ref(ctx.seq) && off(seq) == off(ctx.seq) && len(seq) == len(ctx.seq) && b <= len(seq) && ctx.scratch == old(ctx.scratch) && keep == ctx.keep
+//@   let C = stackinv(ctx) && inside(ctx, b) && len(ctx.stack) == old(len(ctx.stack)) && len(ctx.seq) == old(len(ctx.seq)) && ref(seq) == ref(ctx.seq) && off(seq) == off(ctx.seq) && len(seq) == len(ctx.seq) && b <= len(seq) && ctx.scratch == old(ctx.scratch) && keep == ctx.keep
 //@   let L = len(ctx.seq) == old(len(ctx.seq)) && ref(seq) == ref(ctx.seq) && off(seq) == off(ctx.seq) && len(seq) == len(ctx.seq) && b <= len(seq) && keep == ctx.keep
 //@   loop 0
 //@     invariant C
@@ -886,7 +982,7 @@ package gtab
 //@     invariant L && a < next && next <= b
 //@     invariant forall k int :: 0 <= k && k < len(matchPos) ==> a <= matchPos[k] && matchPos[k] < next
 //@     invariant (forall k2 int :: 0 <= k2 && k2 + 1 < len(matchPos) ==> matchPos[k2] < matchPos[k2+1]) && matchPos[0] == a && len(matchPos) == len(rule.Input) + 1
-//@     invariant len(matchPos) >= 1 && stackinv(ctx) && len(ctx.stack) == old(len(ctx.stack)) && (ref(matchPos) == ref(ctx.scratch) || fresh(matchPos)) && ctx.scratch == old(ctx.scratch) && rule != nil
+//@     invariant len(matchPos) >= 1 && stackinv(ctx) && inside(ctx, b) && len(ctx.stack) == old(len(ctx.stack)) && (ref(matchPos) == ref(ctx.scratch) || fresh(matchPos)) && ctx.scratch == old(ctx.scratch) && rule != nil
 //@     invariant forall k int :: 0 <= k && k < len(ctx.stack) ==> !fresh(ctx.stack[k].InputPos)
 //@     invariant (forall i2 int :: 1 <= i2 && i2 < len(matchPos) ==> seq[matchPos[i2]].GID == rule.Input[i2-1])
 //@     invariant (forall i3 int :: 1 <= i3 && i3 < len(matchPos) ==> keptG(keep, seq[matchPos[i3]].GID)) && (forall i4 int :: forall q int :: 0 <= i4 && i4 + 1 < len(matchPos) && matchPos[i4] < q && q < matchPos[i4+1] ==> !keptG(keep, seq[q].GID)) && forall q int :: matchPos[len(matchPos)-1] < q && q < next ==> !keptG(keep, seq[q].GID)
@@ -895,8 +991,9 @@ package gtab
 // Chained context, format 3 (coverage based).  The new stack entry records one
 // strictly increasing position per input coverage set, the first one being a.
 //@ func (l *ChainedSeqContext3) apply(ctx *Context, a int, b int) (next int)   props: C06 C07
-//@   requires l != nil && ctx != nil && 0 <= a && a < b && b <= len(ctx.seq) && stackinv(ctx) && keepOK(ctx) && llOK(ctx)
+//@   requires l != nil && ctx != nil && 0 <= a && a < b && b <= len(ctx.seq) && stackinv(ctx) && inside(ctx, b) && keepOK(ctx) && llOK(ctx)
 //@   requires len(l.Input) >= 1
+//@   ensures next < 0 ==> inside(ctx, b)
 //@   ensures next >= -1 && next <= len(ctx.seq) && stackinv(ctx) && len(ctx.seq) == old(len(ctx.seq))
 //@   ensures next < 0 ==> len(ctx.stack) == old(len(ctx.stack))
 //@   ensures next >= 0 ==> a < next && next <= b && len(ctx.stack) == old(len(ctx.stack)) + 1
@@ -907,7 +1004,7 @@ package gtab
 //@   return_assert next >= 0 ==> (next < b ==> keptG(keep, seq[next].GID)) && forall q int :: matchPos[len(matchPos)-1] < q && q < next ==> !keptG(keep, seq[q].GID)
 //@   opt assume_make=1
 //@   modifies ctx.scratch, ctx.stack, ctx.stack[*], ctx.scratch[*], all(nested), allelems(int), allelems(*nested)
-//@   let C = stackinv(ctx) && len(ctx.stack) == old(len(ctx.stack)) && len(ctx.seq) == old(len(ctx.seq)) && ref(seq) == ref(ctx.seq) && off(seq) == off(ctx.seq) && len(seq) == len(ctx.seq) && b <= len(seq) && ctx.scratch == old(ctx.scratch) && keep == ctx.keep
+//@   let C = stackinv(ctx) && inside(ctx, b) && len(ctx.stack) == old(len(ctx.stack)) && len(ctx.seq) == old(len(ctx.seq)) && ref(seq) == ref(ctx.seq) && off(seq) == off(ctx.seq) && len(seq) == len(ctx.seq) && b <= len(seq) && ctx.scratch == old(ctx.scratch) && keep == ctx.keep
 //@   let L = len(ctx.seq) == old(len(ctx.seq)) && ref(seq) == ref(ctx.seq) && off(seq) == off(ctx.seq) && len(seq) == len(ctx.seq) && b <= len(seq) && keep == ctx.keep
 //@   let NF = forall k int :: 0 <= k && k < len(ctx.stack) ==> !fresh(ctx.stack[k].InputPos)
 //@   let INC = forall k int :: 0 <= k && k + 1 < len(matchPos) ==> matchPos[k] < matchPos[k+1]
@@ -941,8 +1038,9 @@ package gtab
 
 // Chained context, format 2 (class based); same structure as format 1.
 //@ func (l *ChainedSeqContext2) apply(ctx *Context, a int, b int) (next int)   props: C07 C06
-//@   requires l != nil && ctx != nil && 0 <= a && a < b && b <= len(ctx.seq) && stackinv(ctx) && keepOK(ctx) && llOK(ctx)
+//@   requires l != nil && ctx != nil && 0 <= a && a < b && b <= len(ctx.seq) && stackinv(ctx) && inside(ctx, b) && keepOK(ctx) && llOK(ctx)
 //@   requires forall i int :: 0 <= i && i < len(l.Rules) ==> forall j int :: 0 <= j && j < len(l.Rules[i]) ==> l.Rules[i][j] != nil
+//@   ensures next < 0 ==> inside(ctx, b)
 //@   ensures next >= -1 && next <= len(ctx.seq) && stackinv(ctx) && len(ctx.seq) == old(len(ctx.seq))
 //@   ensures next < 0 ==> len(ctx.stack) == old(len(ctx.stack))
 //@   ensures next >= 0 ==> a < next && next <= b && len(ctx.stack) == old(len(ctx.stack)) + 1
@@ -954,7 +1052,7 @@ package gtab
 //@   return_assert next >= 0 ==> (next < b ==> keptG(keep, seq[next].GID)) && forall q int :: matchPos[len(matchPos)-1] < q && q < next ==> !keptG(keep, seq[q].GID)
 //@   opt assume_make=1
 //@   modifies ctx.scratch, ctx.stack, ctx.stack[*], ctx.scratch[*], all(nested), allelems(int), allelems(*nested)
-//@   let C = stackinv(ctx) && len(ctx.stack) == old(len(ctx.stack)) && len(ctx.seq) == old(len(ctx.seq)) && ref(seq) == ref(ctx.seq) && off(seq) == off(ctx.seq) && len(seq) == len(ctx.seq) && b <= len(seq) && ctx.scratch == old(ctx.scratch) && keep == ctx.keep
+//@   let C = stackinv(ctx) && inside(ctx, b) && len(ctx.stack) == old(len(ctx.stack)) && len(ctx.seq) == old(len(ctx.seq)) && ref(seq) == ref(ctx.seq) && off(seq) == off(ctx.seq) && len(seq) == len(ctx.seq) && b <= len(seq) && ctx.scratch == old(ctx.scratch) && keep == ctx.keep
 //@   let L = len(ctx.seq) == old(len(ctx.seq)) && ref(seq) == ref(ctx.seq) && off(seq) == off(ctx.seq) && len(seq) == len(ctx.seq) && b <= len(seq) && keep == ctx.keep
 //@   loop 0
 //@     invariant C
@@ -996,7 +1094,7 @@ package gtab
 //@     invariant L && a < next && next <= b
 //@     invariant forall k int :: 0 <= k && k < len(matchPos) ==> a <= matchPos[k] && matchPos[k] < next
 //@     invariant (forall k2 int :: 0 <= k2 && k2 + 1 < len(matchPos) ==> matchPos[k2] < matchPos[k2+1]) && matchPos[0] == a && len(matchPos) == len(rule.Input) + 1
-//@     invariant len(matchPos) >= 1 && stackinv(ctx) && len(ctx.stack) == old(len(ctx.stack)) && (ref(matchPos) == ref(ctx.scratch) || fresh(matchPos)) && ctx.scratch == old(ctx.scratch) && rule != nil
+//@     invariant len(matchPos) >= 1 && stackinv(ctx) && inside(ctx, b) && len(ctx.stack) == old(len(ctx.stack)) && (ref(matchPos) == ref(ctx.scratch) || fresh(matchPos)) && ctx.scratch == old(ctx.scratch) && rule != nil
 //@     invariant forall k int :: 0 <= k && k < len(ctx.stack) ==> !fresh(ctx.stack[k].InputPos)
 //@     invariant (forall i2 int :: 1 <= i2 && i2 < len(matchPos) ==> l.Input[seq[matchPos[i2]].GID] == rule.Input[i2-1])
 //@     invariant (forall i3 int :: 1 <= i3 && i3 < len(matchPos) ==> keptG(keep, seq[matchPos[i3]].GID)) && (forall i4 int :: forall q int :: 0 <= i4 && i4 + 1 < len(matchPos) && matchPos[i4] < q && q < matchPos[i4+1] ==> !keptG(keep, seq[q].GID)) && forall q int :: matchPos[len(matchPos)-1] < q && q < next ==> !keptG(keep, seq[q].GID)
@@ -1127,13 +1225,14 @@ package gtab
 // Gsub8_1.apply: replaces the covered glyph by the substitute its coverage
 // index selects iff backtrack and lookahead match; only seq[a].GID changes.
 //@ func (l *Gsub8_1) apply(ctx *Context, a int, b int) (next int)   props: C06 C07
-//@   requires l != nil && ctx != nil && 0 <= a && a < b && b <= len(ctx.seq) && stackinv(ctx) && keepOK(ctx) && llOK(ctx)
+//@   requires l != nil && ctx != nil && 0 <= a && a < b && b <= len(ctx.seq) && stackinv(ctx) && inside(ctx, b) && keepOK(ctx) && llOK(ctx)
 //@   requires forall g uint16 :: has(l.Input, g) ==> 0 <= l.Input[g] && l.Input[g] < len(l.SubstituteGlyphIDs)
+//@   ensures next < 0 ==> inside(ctx, b)
 //@   ensures next >= -1 && next <= len(ctx.seq) && stackinv(ctx) && len(ctx.seq) == old(len(ctx.seq)) && len(ctx.stack) == old(len(ctx.stack))
 //@   ensures next != -1 ==> next == a + 1 && old(has(l.Input, ctx.seq[a].GID)) && ctx.seq[a].GID == l.SubstituteGlyphIDs[l.Input[old(ctx.seq[a].GID)]]
 //@   ensures forall i int :: 0 <= i && i < len(ctx.seq) && (i != a || next == -1) ==> ctx.seq[i].GID == old(ctx.seq[i].GID)
 //@   modifies ctx.seq[*]
-//@   let L = len(ctx.seq) == old(len(ctx.seq)) && ref(seq) == ref(ctx.seq) && off(seq) == off(ctx.seq) && len(seq) == len(ctx.seq) && b <= len(seq) && keep == ctx.keep && stackinv(ctx) && len(ctx.stack) == old(len(ctx.stack))
+//@   let L = len(ctx.seq) == old(len(ctx.seq)) && ref(seq) == ref(ctx.seq) && off(seq) == off(ctx.seq) && len(seq) == len(ctx.seq) && b <= len(seq) && keep == ctx.keep && stackinv(ctx) && inside(ctx, b) && len(ctx.stack) == old(len(ctx.stack))
 //@   let SAME = forall i int :: 0 <= i && i < len(ctx.seq) ==> ctx.seq[i].GID == old(ctx.seq[i].GID)
 //@   loop 0
 //@     invariant L && SAME && 0 <= p && p <= a && glyphsNeeded >= 0 && glyphsNeeded == len(l.Backtrack) - iter
